@@ -1160,6 +1160,11 @@ where
                 let actual = resolve::remove_aliases_cow(&vm.get_env(), &mut NullInterner, &typ);
                 let actual = match **actual {
                     Type::App(_, ref arg) => arg[0].clone(),
+                    // `forall a . IO (a -> a)`
+                    Type::Forall(ref params, ref inner) => match **inner {
+                        Type::App(_, ref arg) => Type::forall(params.clone(), arg[0].clone()),
+                        _ => ice!("ICE: Expected IO type found: `{}`", actual),
+                    },
                     _ => ice!("ICE: Expected IO type found: `{}`", actual),
                 };
                 ExecuteValue {
